@@ -11,7 +11,7 @@ RULE = ("histories of 4..30 public operations (constructors, named/table/fused/t
         "high-first, nothing unreachable) and equal the output of the proved canonicaliser; algebraic-identity programs compute one function "
         "along two histories and compare ==, Hash stream, text and bytes; is_true/is_false compared with the truth table. "
         "non-trivial = result with >=3 nodes produced by an operation with a non-constant operand; distinct by sha256 of (operation, operands)")
-CANONICALISING = ("bin", "named", "fbin", "tern", "ftern", "ite", "bin_exists", "bin_for_all", "nested", "exists", "for_all",
+CANONICALISING = ("bin", "named", "fbin", "fbinlim", "binlim", "tern", "ftern", "ite", "bin_exists", "bin_for_all", "nested", "exists", "for_all",
                   "var_exists", "var_for_all", "select", "var_select", "var_pick", "var_pick_random", "pick", "pick_random")
 NAMES = ["and", "or", "imp", "iff", "xor", "and_not"]
 
@@ -195,6 +195,9 @@ def programs(rng, tier):
         else:
             fl = [optvar(rand_optvar(rng, nv, 0.4)) for _ in range(2)] + [optvar(rand_optvar(rng, nv, 0.1))]
             P.add(["fbin", partial_table(rng, rng.choice(CONNS))] + fl + [bdd_sx(a), bdd_sx(b)])
+            # the size-limited twin with a generous limit and an OUTPUT flip: the same canonical array is demanded
+            fl2 = [optvar(rand_optvar(rng, nv, 0.5)) for _ in range(2)] + [optvar(rng.randrange(nv))]
+            P.add(["fbinlim", str(rng.choice([200, 1000, 100000])), partial_table(rng, rng.choice(CONNS))] + fl2 + [bdd_sx(a), bdd_sx(b)])
     # transfer between variable sets: shared / missing / reordered names
     alphabet = ["a", "b", "c", "d", "e", "f", "z"]
     for _ in range(300 if tier == "quick" else 8000):
